@@ -36,7 +36,7 @@ func shapeJobs() []string {
 			for _, k := range []string{"int", "str", "bool"} {
 				out = append(out, m+"/T1/"+k+ds)
 			}
-			for _, sib := range []string{"int", "str", "slice", "struct", "ptr", "custom", "catchint", "stest"} {
+			for _, sib := range []string{"int", "str", "slice", "struct", "ptr", "custom", "catchint", "stest", "ptrfocus"} {
 				out = append(out, m+"/T2/"+sib+ds)
 			}
 			out = append(out, m+"/T3/int"+ds, m+"/T4/nested"+ds, m+"/T5/slicestruct"+ds, m+"/T6/ptrstruct"+ds)
@@ -88,7 +88,14 @@ func buildShape(job string) *shape {
 		keys := []string{"i"}
 		kids := []Node{focus}
 		tcode := ""
+		if variant == "ptrfocus" {
+			// the focus node sits behind a pointer: struct{ pI: Ptr(focus), j: Int.Required }
+			keys = []string{"pI"}
+			kids = []Node{newPtr("a", v.Choice("notnil", 2) == 1, focus)}
+		}
 		switch variant {
+		case "ptrfocus":
+			keys, kids = append(keys, "j"), append(kids, newInt("b", dReq, 1, classesFor(mode, []int{cMissing, cVal})))
 		case "int":
 			keys, kids = append(keys, "j"), append(kids, newInt("b", dReq, 1, classesFor(mode, []int{cMissing, cVal})))
 		case "catchint":
@@ -143,6 +150,7 @@ func buildShape(job string) *shape {
 		focus := newInt("a", fdeco, 1, classesFor(mode, focusClasses))
 		in := newStruct("in", []string{"x", "y"}, []Node{focus, newStr("in.y", dReq, 1, classesFor(mode, []int{cMissing, cVal}))}, classesFor(mode, []int{cVal, cNil}))
 		sib := newInt("b", dReq, 1, classesFor(mode, []int{cMissing, cVal}))
+		in.TCode, in.TX = "itest", v.Int("in.tx") // a struct-level test on the nested struct
 		sh.top = newStruct("top", []string{"n", "j"}, []Node{in, sib}, []int{cVal})
 	}
 	return sh
@@ -248,6 +256,11 @@ func (sh *shape) destPtr(o *outcome) any {
 func (sh *shape) want(o *outcome) []Iss {
 	w := sh.root().Ref(sh.mode, "")
 	if sh.top != nil {
+		for i, k := range sh.top.Keys {
+			if in, ok := sh.top.Kids[i].(*StructNode); ok && in.TCode != "" {
+				w = append(w, in.structTestIss(k, destField(&o.dest, k))...)
+			}
+		}
 		w = append(w, sh.top.structTestIss("", &o.dest)...)
 	}
 	return w
